@@ -450,7 +450,7 @@ pub fn run_cmp(thorough: bool, seed: u64, threads: usize, prop_cases: u32) -> (C
                         break;
                     }
                     let (kind, n, m, sa, la) = units[u];
-                    unit_cases(kind, n, m, sa, la, &mut |c| match run_cmp_case(&c) {
+                    unit_cases(kind, n, m, sa, la, &mut |c| { crate::watch::tick(); match run_cmp_case(&c) {
                         Ok(f) => {
                             st.note(&c, f);
                             true
@@ -460,7 +460,7 @@ pub fn run_cmp(thorough: bool, seed: u64, threads: usize, prop_cases: u32) -> (C
                             found.lock().unwrap().push((u, c, msg));
                             false
                         }
-                    });
+                    }});
                 }
                 total.lock().unwrap().merge(st);
             });
